@@ -76,8 +76,8 @@ func oracle(c Case) *ev.Verdict {
 	var exErr, ex2Err, heldErr error
 	var heldNow, heldNext []byte
 	var astVal string
-	var oas []byte
-	var oasErr error
+	var oas, oas2, oas3 []byte
+	var oasErr, oas2Err, oas3Err error
 	r := regex.New("regex", s)
 	if esc := sut.Trap("RSchema.Check", func() { cerr = sut.Describe(r.Check()) }); esc != nil {
 		return ev.V("panic:Check:"+esc.Frame, "Check() of regex schema %q panicked: %s", s, esc.Value)
@@ -140,7 +140,13 @@ func oracle(c Case) *ev.Verdict {
 		ex2, ex2Err = r.Example()
 		a, _ := r.GetAST()
 		astVal = a.Value
-		oas, oasErr = openapi.NewSchemaObject(r).MarshalJSON()
+		so := openapi.NewSchemaObject(r)
+		oas, oasErr = so.MarshalJSON()
+		// the same Schema Object written out again (with a description set in between, as an API document
+		// writer does) says the same
+		so.SetDescription("d")
+		oas2, oas2Err = so.MarshalJSON()
+		oas3, oas3Err = openapi.NewSchemaObject(r).MarshalJSON()
 	}); esc != nil {
 		return ev.V("panic:"+esc.Frame, "operations on accepted regex schema %q panicked: %s", s, esc.Value)
 	}
@@ -149,6 +155,16 @@ func oracle(c Case) *ev.Verdict {
 	}
 	if oasErr != nil {
 		return ev.V("openapi:error", "OpenAPI conversion of %q fails: %v", s, oasErr)
+	}
+	if oas2Err != nil || oas3Err != nil || string(oas3) != string(oas) {
+		return ev.V("openapi:second-conversion", "OpenAPI of %q: %s; a second Schema Object of the same schema: %s, %v (the first written again: %v)", s, oas, oas3, oas3Err, oas2Err)
+	}
+	if utf8.ValidString(pat) {
+		j1, e1 := jsonv.Parse(oas)
+		j2, e2 := jsonv.Parse(oas2)
+		if e1 == nil && (e2 != nil || j2.Get("pattern") == nil || j1.Get("pattern") == nil || j2.Get("pattern").Str != j1.Get("pattern").Str) {
+			return ev.V("openapi:written-again", "the Schema Object of %q written out a second time: %s, the first time: %s", s, oas2, oas)
+		}
 	}
 	if utf8.ValidString(pat) {
 		j, err := jsonv.Parse(oas)
@@ -180,12 +196,12 @@ func oracle(c Case) *ev.Verdict {
 		}
 		return ev.V("example:error", "Example() of accepted %q fails: %v", s, exErr)
 	}
-	if anchors.MatchString(pat) {
+	anchored := anchors.MatchString(pat)
+	if anchored {
+		// (the example is not judged; the schema used as a type is - below - against the reference matcher)
 		ev.Excluded("all", "example-match skipped: anchors or word boundaries (possibly unsatisfiable)")
-		return nil
-	}
-	// (a second call may legitimately return another example: the generator is a random stream)
-	if !re.Match(ex1) || !re.Match(ex2) {
+	} else if !re.Match(ex1) || !re.Match(ex2) {
+		// (a second call may legitimately return another example: the generator is a random stream)
 		return ev.V("example:no-match", "Example() of %q is %q (second call %q) which /%s/ does not match", s, ex1, ex2, pat)
 	}
 	// used as a user type
@@ -194,6 +210,11 @@ func oracle(c Case) *ev.Verdict {
 		return nil
 	}
 	probes := append([]string{string(ex1)}, c.Probes...)
+	// strings around the example: the example inside a longer string, twice, with a blank behind it, cut short
+	// (what an anchored pattern refuses and a substring search accepts)
+	if e := string(ex1); len(e) > 0 && len(e) < 200 {
+		probes = append(probes, "x"+e+"x", e+e, e+" ", " "+e, e[:len(e)-1])
+	}
 	for i, p := range probes {
 		if !utf8.ValidString(p) {
 			continue
@@ -217,6 +238,12 @@ func oracle(c Case) *ev.Verdict {
 		}
 		if addErr != nil {
 			return ev.V("type-use:addtype", "AddType of accepted regex schema %q fails: %s", s, addErr)
+		}
+		if anchored && chkErr != nil && chkErr.UserType == "@r" {
+			// the refusal is about the type's own text: the example drawn for a pattern with anchors or word
+			// boundaries need not match it (see above), and then nothing can be said about the referring schema
+			ev.Excluded("all", "type use skipped: the type's own generated example does not match its anchored pattern")
+			return nil
 		}
 		if (chkErr == nil) != re.MatchString(p) {
 			return ev.V("type-use:verdict", "schema %s // {type: \"@r\"} with @r = %s: Check()=%v, pattern matches=%v", lit, s, chkErr, re.MatchString(p))
@@ -260,6 +287,10 @@ func oracle(c Case) *ev.Verdict {
 				if e != nil {
 					return ev.V("type-use:addtype:"+u.name, "AddType fails for the project root %s, @mid = %s, @r = %s: %s", u.root, u.mid, s, e)
 				}
+			}
+			if anchored && chkErr != nil && chkErr.UserType == "@r" {
+				ev.Excluded("all", "type use skipped: the type's own generated example does not match its anchored pattern")
+				return nil
 			}
 			if (chkErr == nil) != re.MatchString(p) {
 				return ev.V("type-use:verdict:"+u.name, "root %s, @mid = %s, @r = %s: Check()=%v, pattern matches=%v", u.root, u.mid, s, chkErr, re.MatchString(p))
@@ -474,6 +505,12 @@ func TestPropPatterns(t *testing.T) {
 	registerAll()
 	ev.Rapid(t, "patterns", ev.N(10000, 30000), func(t *rapid.T) Case {
 		p := genSeq(t, 2)
+		if rapid.IntRange(0, 7).Draw(t, "literal") == 0 {
+			// a plain text between anchors (what regexp reports as a complete literal prefix)
+			lit := rapid.StringMatching(`[a-c0-2 _-]{1,5}`).Draw(t, "lit")
+			p = rapid.SampledFrom([]string{"^%s$", "^%s", "%s$", `\A%s\z`, "^%s\\.%s$", "%s"}).Draw(t, "anchors")
+			p = strings.ReplaceAll(p, "%s", lit)
+		}
 		s := "/" + p + "/"
 		switch rapid.IntRange(0, 5).Draw(t, "wrap") {
 		case 0:
